@@ -32,12 +32,16 @@
 
     batch.mw <chain> <request>      the loop around a batch-item middleware chain (model: `Batch.loopG`)
         chain := <stage> {',' <stage>}           in registration order (outermost first)
-        stage := 'T' | ('M' | 'R' | 'E' | 'P' | 'Q') [<idx> {'.' <idx>}]
+        stage := 'T' | ('M' | 'R' | 'E' | 'P' | 'Q' | 'F' | 'G' | 'N' | 'K' | 'D') [<idx> {'.' <idx>}]
                  T transparent; for the items listed: M answers success whatever the rest of the chain returned,
                  R refuses without calling next (returns (nil, err)), E calls next and returns its item with an error,
                  P panics without calling next, Q calls next and then panics (a panic unwinds through the stages
                  around it — M cannot mask it — to the last-resort recovery of executeItemWithMiddleware: the item
-                 is answered failed echoing operation and id, the placeholder is cleared)
+                 is answered failed echoing operation and id, the placeholder is cleared); after calling next:
+                 F marks the item it got OperationFailed ITSELF and returns it with an error, G marks it failed and
+                 returns NO error (`handleBatchItemError` does not run: the placeholder stays as the handler left
+                 it), N returns (nil, err), K returns (nil, nil) (turned into an error by
+                 `executeItemWithMiddleware`); D returns a fresh item marked failed with an error WITHOUT calling next
       → ok <ver> <count> <ritems> entered=<calls>     entered: the items handed to the chain, in order
     place.mw <chain> <request>      → ok obs=<obs>    what the handlers read with that item chain installed (a masked
                                     returned error leaves the placeholder alone; refusal, failure and panic clear it)
@@ -166,7 +170,7 @@ private def parseStage (s : String) : Option MwStage :=
   match s.toList with
   | [] => none
   | k :: rest =>
-    if k = 'T' ∨ k = 'M' ∨ k = 'R' ∨ k = 'E' ∨ k = 'P' ∨ k = 'Q' then
+    if "TMREPQFGNKD".toList.contains k then
       if rest.isEmpty then some { kind := k, set := [] }
       else ((String.ofList rest).splitOn ".").mapM String.toNat? |>.map fun l => { kind := k, set := l }
     else none
@@ -193,6 +197,7 @@ private def chainRaw (srv : Srv) (chain : List MwStage) (i : Nat) (ph : Val) (it
       if st.set.contains i then
         if st.kind = 'R' then { ri := echo false, ph := ph, err := true, unw := false, obs := [] }
         else if st.kind = 'P' then { ri := echo true, ph := 0, err := false, unw := true, obs := [] }
+        else if st.kind = 'D' then { ri := echo true, ph := ph, err := true, unw := false, obs := [] }
         else
           let x := go rest
           if x.unw then x
@@ -200,6 +205,9 @@ private def chainRaw (srv : Srv) (chain : List MwStage) (i : Nat) (ph : Val) (it
             (if x.err || x.ri.failed then { x with ri := echo false, err := false } else x)
           else if st.kind = 'E' then { x with err := true }
           else if st.kind = 'Q' then { x with ri := echo true, ph := 0, unw := true }
+          else if st.kind = 'F' then { x with ri := echo true, err := true }
+          else if st.kind = 'G' then { x with ri := echo true, err := false }
+          else if st.kind = 'N' ∨ st.kind = 'K' then { x with ri := echo false, err := true }
           else x
       else go rest
   go chain
